@@ -78,12 +78,21 @@ Without(q, e) == SelectSeq(q, LAMBDA x : x # e)
    cv_1_ld:  ret[self] := value; return;                                      \* counter.c:89 ATM_LOAD_ACQ
   }
 
+  procedure cnew()
+  {
+   cn_1_st:  ret[self] := 1; return;                                          \* counter.c:40 ATM_STORE (&c->value, value) of the fresh counter
+  }
+
   process (thr \in Threads)
   {
    c0: while (ip[self] <= Len(Prog[self])) {
          if (CurOp(self).op = "add" /\ CurOp(self).d = 0) { ip[self] := ip[self] + 1; call cvalue(); }     \* counter.c:56
          else if (CurOp(self).op = "add") { ip[self] := ip[self] + 1; call add(CurOp(self).d); }
          else if (CurOp(self).op = "value") { ip[self] := ip[self] + 1; call cvalue(); }
+         else if (CurOp(self).op = "new") {                                    \* nsync_counter_new (d) of a further counter; x = 1: its allocation fails (C19)
+           ip[self] := ip[self] + 1;
+           if (CurOp(self).x = 1) { ret[self] := 0; } else { call cnew(); };   \* NULL; the counter under test is untouched
+         }
          else if (CurOp(self).op = "wait") { ip[self] := ip[self] + 1; call cwait(CurOp(self).dl); }
          else { ip[self] := ip[self] + 1; };
        };
@@ -368,6 +377,15 @@ cv_1_ld(self) == /\ pc[self] = "cv_1_ld"
 
 cvalue(self) == cv_1_ld(self)
 
+cn_1_st(self) == /\ pc[self] = "cn_1_st"
+                 /\ ret' = [ret EXCEPT ![self] = 1]
+                 /\ pc' = [pc EXCEPT ![self] = Head(stack[self]).pc]
+                 /\ stack' = [stack EXCEPT ![self] = Tail(stack[self])]
+                 /\ UNCHANGED << value, waited, cwaiters, lockh, nww, sem, now, 
+                                 ip, everzero, d, v, wk, dl, rdy, enq, still >>
+
+cnew(self) == cn_1_st(self)
+
 c0(self) == /\ pc[self] = "c0"
             /\ IF ip[self] <= Len(Prog[self])
                   THEN /\ IF CurOp(self).op = "add" /\ CurOp(self).d = 0
@@ -376,7 +394,7 @@ c0(self) == /\ pc[self] = "c0"
                                                                            pc        |->  "c0" ] >>
                                                                        \o stack[self]]
                                   /\ pc' = [pc EXCEPT ![self] = "cv_1_ld"]
-                                  /\ UNCHANGED << d, v, wk, dl, rdy, enq, 
+                                  /\ UNCHANGED << ret, d, v, wk, dl, rdy, enq, 
                                                   still >>
                              ELSE /\ IF CurOp(self).op = "add"
                                         THEN /\ ip' = [ip EXCEPT ![self] = ip[self] + 1]
@@ -390,7 +408,7 @@ c0(self) == /\ pc[self] = "c0"
                                              /\ v' = [v EXCEPT ![self] = 0]
                                              /\ wk' = [wk EXCEPT ![self] = 0]
                                              /\ pc' = [pc EXCEPT ![self] = "ca_1_lk"]
-                                             /\ UNCHANGED << dl, rdy, enq, 
+                                             /\ UNCHANGED << ret, dl, rdy, enq, 
                                                              still >>
                                         ELSE /\ IF CurOp(self).op = "value"
                                                    THEN /\ ip' = [ip EXCEPT ![self] = ip[self] + 1]
@@ -398,36 +416,53 @@ c0(self) == /\ pc[self] = "c0"
                                                                                                  pc        |->  "c0" ] >>
                                                                                              \o stack[self]]
                                                         /\ pc' = [pc EXCEPT ![self] = "cv_1_ld"]
-                                                        /\ UNCHANGED << dl, 
+                                                        /\ UNCHANGED << ret, 
+                                                                        dl, 
                                                                         rdy, 
                                                                         enq, 
                                                                         still >>
-                                                   ELSE /\ IF CurOp(self).op = "wait"
+                                                   ELSE /\ IF CurOp(self).op = "new"
                                                               THEN /\ ip' = [ip EXCEPT ![self] = ip[self] + 1]
-                                                                   /\ /\ dl' = [dl EXCEPT ![self] = CurOp(self).dl]
-                                                                      /\ stack' = [stack EXCEPT ![self] = << [ procedure |->  "cwait",
-                                                                                                               pc        |->  "c0",
-                                                                                                               rdy       |->  rdy[self],
-                                                                                                               enq       |->  enq[self],
-                                                                                                               still     |->  still[self],
-                                                                                                               dl        |->  dl[self] ] >>
-                                                                                                           \o stack[self]]
-                                                                   /\ rdy' = [rdy EXCEPT ![self] = FALSE]
-                                                                   /\ enq' = [enq EXCEPT ![self] = FALSE]
-                                                                   /\ still' = [still EXCEPT ![self] = FALSE]
-                                                                   /\ pc' = [pc EXCEPT ![self] = "cr_1_st"]
-                                                              ELSE /\ ip' = [ip EXCEPT ![self] = ip[self] + 1]
-                                                                   /\ pc' = [pc EXCEPT ![self] = "c0"]
-                                                                   /\ UNCHANGED << stack, 
-                                                                                   dl, 
+                                                                   /\ IF CurOp(self).x = 1
+                                                                         THEN /\ ret' = [ret EXCEPT ![self] = 0]
+                                                                              /\ pc' = [pc EXCEPT ![self] = "c0"]
+                                                                              /\ stack' = stack
+                                                                         ELSE /\ stack' = [stack EXCEPT ![self] = << [ procedure |->  "cnew",
+                                                                                                                       pc        |->  "c0" ] >>
+                                                                                                                   \o stack[self]]
+                                                                              /\ pc' = [pc EXCEPT ![self] = "cn_1_st"]
+                                                                              /\ ret' = ret
+                                                                   /\ UNCHANGED << dl, 
                                                                                    rdy, 
                                                                                    enq, 
                                                                                    still >>
+                                                              ELSE /\ IF CurOp(self).op = "wait"
+                                                                         THEN /\ ip' = [ip EXCEPT ![self] = ip[self] + 1]
+                                                                              /\ /\ dl' = [dl EXCEPT ![self] = CurOp(self).dl]
+                                                                                 /\ stack' = [stack EXCEPT ![self] = << [ procedure |->  "cwait",
+                                                                                                                          pc        |->  "c0",
+                                                                                                                          rdy       |->  rdy[self],
+                                                                                                                          enq       |->  enq[self],
+                                                                                                                          still     |->  still[self],
+                                                                                                                          dl        |->  dl[self] ] >>
+                                                                                                                      \o stack[self]]
+                                                                              /\ rdy' = [rdy EXCEPT ![self] = FALSE]
+                                                                              /\ enq' = [enq EXCEPT ![self] = FALSE]
+                                                                              /\ still' = [still EXCEPT ![self] = FALSE]
+                                                                              /\ pc' = [pc EXCEPT ![self] = "cr_1_st"]
+                                                                         ELSE /\ ip' = [ip EXCEPT ![self] = ip[self] + 1]
+                                                                              /\ pc' = [pc EXCEPT ![self] = "c0"]
+                                                                              /\ UNCHANGED << stack, 
+                                                                                              dl, 
+                                                                                              rdy, 
+                                                                                              enq, 
+                                                                                              still >>
+                                                                   /\ ret' = ret
                                              /\ UNCHANGED << d, v, wk >>
                   ELSE /\ pc' = [pc EXCEPT ![self] = "Done"]
-                       /\ UNCHANGED << ip, stack, d, v, wk, dl, rdy, enq, 
+                       /\ UNCHANGED << ip, ret, stack, d, v, wk, dl, rdy, enq, 
                                        still >>
-            /\ UNCHANGED << value, waited, cwaiters, lockh, nww, sem, now, ret, 
+            /\ UNCHANGED << value, waited, cwaiters, lockh, nww, sem, now, 
                             everzero >>
 
 thr(self) == c0(self)
@@ -436,7 +471,8 @@ thr(self) == c0(self)
 Terminating == /\ \A self \in ProcSet: pc[self] = "Done"
                /\ UNCHANGED vars
 
-Next == (\E self \in ProcSet: add(self) \/ cwait(self) \/ cvalue(self))
+Next == (\E self \in ProcSet:  \/ add(self) \/ cwait(self) \/ cvalue(self)
+                               \/ cnew(self))
            \/ (\E self \in Threads: thr(self))
            \/ Terminating
 
@@ -447,7 +483,7 @@ Termination == <>(\A self \in ProcSet: pc[self] = "Done")
 \* END TRANSLATION
 
 LocalLabels == {"ca_4_l", "ca_5_l"}
-Step(self) == add(self) \/ cwait(self) \/ cvalue(self) \/ thr(self)
+Step(self) == add(self) \/ cwait(self) \/ cvalue(self) \/ cnew(self) \/ thr(self)
 TickUseful == \E u \in Threads : pc[u] = "wn_7_pd" /\ dl[u] > now
 Tick == /\ now < MaxNow /\ TickUseful
         /\ now' = now + 1
